@@ -257,12 +257,13 @@ VARIABLES cfg,   \* the case (constant)
 
 vars == <<cfg, pc, inp, buf, alias, rw, ns, cont, tbl, out>>
 
-Init == \E c \in Cases :
-          /\ cfg = c
-          /\ pc = IF c.kind = "ts" THEN "ts_enter" ELSE "ev_resolve"
-          /\ inp = c.x /\ buf = <<>> /\ alias = FALSE
-          /\ rw = c.expr /\ ns = <<>> /\ cont = c.vars /\ tbl = HelperNames
-          /\ out = None
+InitWith(c) ==
+  /\ cfg = c
+  /\ pc = IF c.kind = "ts" THEN "ts_enter" ELSE "ev_resolve"
+  /\ inp = c.x /\ buf = <<>> /\ alias = FALSE
+  /\ rw = c.expr /\ ns = <<>> /\ cont = c.vars /\ tbl = HelperNames
+  /\ out = None
+Init == \E c \in Cases : InitWith(c)
 
 IsTs == cfg.kind = "ts"
 IsEv == cfg.kind = "ev"
